@@ -155,7 +155,7 @@ var plans = []nrun.Plan{
 		if err != nil && !st.closed {
 			x.Violate("flush-error", "Flush returned %v", err)
 		}
-	}), QuickBudget: 1, ThoroughBudget: 2, ThoroughFaultOnlyFrom: 0},
+	}), QuickBudget: 2, QuickFaultOnlyFrom: 2, ThoroughBudget: 3, ThoroughFaultOnlyFrom: 3},
 	{Scenario: scenario("P-abort", 0, func(x *netctl.Exec, st *state, t *netctl.Thread) {
 		t.Step("abort-buffered")
 		ctx, cancel := context.WithTimeout(context.Background(), 200*time.Second)
@@ -163,20 +163,20 @@ var plans = []nrun.Plan{
 		if err := st.cl.AbortBufferedRecords(ctx); err != nil {
 			x.Violate("abort-error", "AbortBufferedRecords returned %v", err)
 		}
-	}), QuickBudget: 1, ThoroughBudget: 2},
+	}), QuickBudget: 2, QuickFaultOnlyFrom: 2, ThoroughBudget: 3, ThoroughFaultOnlyFrom: 3},
 	{Scenario: scenario("P-purge", 5*time.Millisecond, func(x *netctl.Exec, st *state, t *netctl.Thread) {
 		t.Step("purge-t")
 		st.cl.PurgeTopicsFromClient("t")
-	}), QuickBudget: 1, ThoroughBudget: 2},
+	}), QuickBudget: 2, QuickFaultOnlyFrom: 2, ThoroughBudget: 3, ThoroughFaultOnlyFrom: 3},
 	{Scenario: scenario("P-cancel", 0, func(x *netctl.Exec, st *state, t *netctl.Thread) {
 		t.Step("cancel-r2-ctx")
 		st.cancel2()
-	}), QuickBudget: 1, ThoroughBudget: 2},
+	}), QuickBudget: 2, QuickFaultOnlyFrom: 2, ThoroughBudget: 3, ThoroughFaultOnlyFrom: 3},
 	{Scenario: scenario("P-close", 5*time.Millisecond, func(x *netctl.Exec, st *state, t *netctl.Thread) {
 		t.Step("close")
 		st.closed = true
 		st.cl.Close()
-	}), QuickBudget: 1, ThoroughBudget: 2},
+	}), QuickBudget: 2, QuickFaultOnlyFrom: 2, ThoroughBudget: 3, ThoroughFaultOnlyFrom: 3},
 }
 
 func kfakeSeed() []kfake.Opt { return []kfake.Opt{kfake.SeedTopics(2, "t")} }
